@@ -339,6 +339,126 @@ async fn run_history(rep: &Reporter, dir: &std::path::Path, seed: u64, h: u64, t
     ep.task.abort();
 }
 
+// ------------------------------------------------------------------ UDP byte accounting (L1, virtual time)
+
+/// Scripted forwarder side: byte 0 of a client datagram says whether the "socket" sends (0) or drops (1) it,
+/// byte 1 how many reply datagrams come back, byte 2 whether the client's sink accepts (0) or drops (1) them.
+struct ScriptedPeer {
+    replies_tx: tokio::sync::mpsc::UnboundedSender<trusttunnel::verif::misc::UdpPeerEvent>,
+    replies_rx: tokio::sync::Mutex<tokio::sync::mpsc::UnboundedReceiver<trusttunnel::verif::misc::UdpPeerEvent>>,
+    sent_bytes: std::sync::atomic::AtomicU64,
+    sent: std::sync::atomic::AtomicU64,
+    dropped: std::sync::atomic::AtomicU64,
+    refuse_new_on_port: u16,
+}
+
+#[async_trait::async_trait]
+impl trusttunnel::verif::misc::VUdpPeer for ScriptedPeer {
+    async fn on_new(&self, _source: SocketAddr, destination: SocketAddr) -> std::io::Result<()> {
+        if destination.port() == self.refuse_new_on_port { Err(std::io::Error::from(std::io::ErrorKind::PermissionDenied)) } else { Ok(()) }
+    }
+    fn on_closed(&self, _source: SocketAddr, _destination: SocketAddr) {}
+    async fn read(&self) -> std::io::Result<trusttunnel::verif::misc::UdpPeerEvent> {
+        self.replies_rx.lock().await.recv().await.ok_or_else(|| std::io::Error::from(std::io::ErrorKind::UnexpectedEof))
+    }
+    async fn write(&self, d: trusttunnel::verif::pure::UdpIn) -> std::io::Result<bool> {
+        use std::sync::atomic::Ordering::SeqCst;
+        let code = d.payload.first().copied().unwrap_or(0);
+        if code == 1 { self.dropped.fetch_add(1, SeqCst); return Ok(false); }
+        self.sent.fetch_add(1, SeqCst);
+        self.sent_bytes.fetch_add(d.payload.len() as u64, SeqCst);
+        let nrep = d.payload.get(1).copied().unwrap_or(0) % 3;
+        for k in 0..nrep {
+            let mut p = vec![d.payload.get(2).copied().unwrap_or(0); 1 + (d.payload.len() * (k as usize + 1)) % 900];
+            p[0] = d.payload.get(2).copied().unwrap_or(0);
+            let _ = self.replies_tx.send(trusttunnel::verif::misc::UdpPeerEvent::Datagram(trusttunnel::verif::misc::UdpOut { source: d.destination, destination: d.source, payload: Bytes::from(p) }));
+        }
+        Ok(true)
+    }
+}
+
+struct AcctSource(tokio::sync::mpsc::UnboundedReceiver<trusttunnel::verif::pure::UdpIn>);
+#[async_trait::async_trait]
+impl trusttunnel::verif::misc::VUdpSource for AcctSource {
+    async fn read(&mut self) -> std::io::Result<trusttunnel::verif::pure::UdpIn> { self.0.recv().await.ok_or_else(|| std::io::Error::from(std::io::ErrorKind::UnexpectedEof)) }
+}
+struct AcctSink { accepted_bytes: Arc<std::sync::atomic::AtomicU64>, accepted: Arc<std::sync::atomic::AtomicU64>, dropped: Arc<std::sync::atomic::AtomicU64> }
+#[async_trait::async_trait]
+impl trusttunnel::verif::misc::VUdpSink for AcctSink {
+    async fn write(&mut self, d: trusttunnel::verif::misc::UdpOut) -> std::io::Result<bool> {
+        use std::sync::atomic::Ordering::SeqCst;
+        if d.payload.first().copied().unwrap_or(0) == 1 { self.dropped.fetch_add(1, SeqCst); return Ok(false); }
+        self.accepted.fetch_add(1, SeqCst);
+        self.accepted_bytes.fetch_add(d.payload.len() as u64, SeqCst);
+        Ok(true)
+    }
+}
+
+/// "traffic counters equal the payload bytes actually relayed" for UDP: the real udp_pipe::DuplexPipe between a mirror
+/// client and a scripted forwarder side whose per-datagram outcome (sent / dropped) the harness chooses; the callback the
+/// tunnel feeds the counters with must add up to exactly the bytes of the datagrams that were sent, per direction.
+fn udp_accounting_part(rep: &Arc<Reporter>, args: &Args) {
+    use std::sync::atomic::{AtomicU64, Ordering::SeqCst};
+    let rt = crate::env::rt_paused();
+    let n = args.qt(300u64, 20_000u64);
+    for h in 0..n {
+        let mut r = Rng::derive(args.seed, 0xc16acc, h);
+        let (rtx, rrx) = tokio::sync::mpsc::unbounded_channel();
+        let peer = Arc::new(ScriptedPeer { replies_tx: rtx, replies_rx: tokio::sync::Mutex::new(rrx), sent_bytes: AtomicU64::new(0), sent: AtomicU64::new(0), dropped: AtomicU64::new(0), refuse_new_on_port: 9 });
+        let (ctx_tx, crx) = tokio::sync::mpsc::unbounded_channel();
+        let (ab, ac, ad) = (Arc::new(AtomicU64::new(0)), Arc::new(AtomicU64::new(0)), Arc::new(AtomicU64::new(0)));
+        let counted = Arc::new((AtomicU64::new(0), AtomicU64::new(0), AtomicU64::new(0), AtomicU64::new(0))); // up bytes, up calls, down bytes, down calls
+        let ndg = r.range(1, 30) as usize;
+        let mut plan = vec![];
+        for _ in 0..ndg {
+            let flow = r.below(4);
+            let to_refused = r.chance(1, 12);
+            let len = *r.pick(&[3usize, 4, 50, 512, 1400]);
+            let mut payload = r.bytes(len);
+            payload[0] = if r.chance(1, 3) { 1 } else { 0 };
+            payload[1] = r.below(3) as u8;
+            payload[2] = if r.chance(1, 3) { 1 } else { 0 };
+            plan.push((flow, to_refused, payload));
+        }
+        let mut refused_bytes = 0u64;
+        let res = rt.block_on(async {
+            let (peer2, counted2) = (peer.clone(), counted.clone());
+            let sink = AcctSink { accepted_bytes: ab.clone(), accepted: ac.clone(), dropped: ad.clone() };
+            let pipe = tokio::spawn(async move {
+                trusttunnel::verif::misc::run_udp_pipe_scripted((Box::new(AcctSource(crx)), Box::new(sink)), peer2, Duration::from_secs(60), move |outgoing, n| {
+                    if outgoing { counted2.0.fetch_add(n as u64, SeqCst); counted2.1.fetch_add(1, SeqCst); } else { counted2.2.fetch_add(n as u64, SeqCst); counted2.3.fetch_add(1, SeqCst); }
+                }).await
+            });
+            for (flow, to_refused, payload) in &plan {
+                let destination: SocketAddr = if *to_refused { "203.0.113.9:9".parse().unwrap() } else { format!("203.0.113.{}:4000", 10 + flow).parse().unwrap() };
+                if *to_refused { refused_bytes += payload.len() as u64; }
+                let _ = ctx_tx.send(trusttunnel::verif::pure::UdpIn { source: format!("10.8.0.2:{}", 5000 + flow).parse().unwrap(), destination, app_name: None, payload: Bytes::from(payload.clone()) });
+                if r.chance(1, 3) { tokio::time::sleep(Duration::from_millis(r.below(20_000))).await; }
+            }
+            tokio::time::sleep(Duration::from_secs(5)).await;
+            drop(ctx_tx);
+            tokio::time::timeout(Duration::from_secs(600), pipe).await
+        });
+        rep.evals(1);
+        rep.distinct(common::fnv(format!("acct|{:?}", plan.iter().map(|(f, t, p)| (*f, *t, p.len(), p[0], p[1], p[2])).collect::<Vec<_>>()).as_bytes()));
+        let (up_b, up_c, down_b, down_c) = (counted.0.load(SeqCst), counted.1.load(SeqCst), counted.2.load(SeqCst), counted.3.load(SeqCst));
+        let w = json!({"kind":"udp-accounting","history":h,"datagrams":plan.iter().map(|(f, t, p)| json!({"flow":f,"to_unconnectable":t,"len":p.len(),"peer_socket":if p[0] == 1 {"drops"} else {"sends"},"replies":p[1] % 3,"client_sink":if p[2] == 1 {"drops"} else {"accepts"}})).collect::<Vec<_>>(),
+            "counted_up_bytes":up_b,"sent_to_peers_bytes":peer.sent_bytes.load(SeqCst),"counted_down_bytes":down_b,"accepted_by_client_bytes":ab.load(SeqCst),"dropped_by_peer_socket":peer.dropped.load(SeqCst),"dropped_by_client_sink":ad.load(SeqCst)});
+        if rep.want_sample() { rep.sample(w.clone()); }
+        if !matches!(res, Ok(Ok(Ok(())))) && !matches!(res, Ok(Ok(Err(_)))) { rep.violation("udp accounting: the multiplexer did not end when the client stream closed", w.clone()); continue; }
+        if up_b != peer.sent_bytes.load(SeqCst) || up_c != peer.sent.load(SeqCst) {
+            rep.violation("UDP upload bytes counted differ from the bytes of the datagrams actually sent to peers", w.clone());
+        } else if down_b != ab.load(SeqCst) || down_c != ac.load(SeqCst) {
+            rep.violation("UDP download bytes counted differ from the bytes of the datagrams actually delivered to the client", w.clone());
+        } else {
+            rep.tally("udp accounting: counters == bytes actually relayed (both directions)", 1);
+            rep.tally("udp accounting: datagrams dropped by the peer-side socket (not counted)", peer.dropped.load(SeqCst));
+            rep.tally("udp accounting: datagrams dropped by the client sink (not counted)", ad.load(SeqCst));
+            let _ = refused_bytes;
+        }
+    }
+}
+
 pub fn run(args: &Args) -> i32 {
     let rep = Arc::new(Reporter::new(
         args,
@@ -346,10 +466,11 @@ pub fn run(args: &Args) -> i32 {
         "history = 6-14 steps against the real Core::listen on loopback (TLS, HTTP/1.1 and HTTP/2, metrics listener): open/close session, open tunnel to a \
          transfer server, failed connect, asymmetric transfer (up N+8 / down M bytes), graceful close / reset, idle timeout, _udp2 datagrams on up to 3 flows, \
          UDP expiry; after every step: quiescence (two identical snapshots), in-process gauges/counters vs the model, GET /metrics text vs in-process values, \
-         /health-check. distinct_nontrivial = distinct step sequences.",
+         /health-check. Plus (L1, virtual time) UDP byte accounting: the real udp_pipe::DuplexPipe between a mirror client and a scripted forwarder side that sends or drops each datagram as the harness chooses; the counter callback must add up to the bytes actually relayed. distinct_nontrivial = distinct step sequences / datagram plans.",
     ));
     rep.assume("label values are compared case-insensitively (HTTP1 in code, http1 in METRICS.md)");
     rep.assume("ordinary histories run under long idle timeouts (120 s) so nothing expires on its own; expiry is exercised by dedicated histories with T_tcp = 2.5 s / T_udp = 2 s and a wait of 2T + 500 ms");
+    udp_accounting_part(&rep, args);
     let dir = env::work_dir(&args.root, "c16");
     let n = args.qt(24u64, 600u64);
     let seed = args.seed;
